@@ -65,6 +65,10 @@ def same_value(a, b, ulps=0):
         return len(a) == len(b) and all(same_value(x, y, ulps) for x, y in zip(a, b))
     if isinstance(a, (onp.dtype, type, str)) or isinstance(b, (onp.dtype, type, str)) or a is None or b is None:
         return type(a) is type(b) and a == b
+    # Python int vs NumPy integer (sizes, ranks, lengths, counts): NumPy's weak / strong scalar promotion treats
+    # them differently, so a shape query answering with np.int64 changes the dtype of what is computed from it
+    if isinstance(a, (int, onp.integer)) and isinstance(b, (int, onp.integer)) and not isinstance(a, bool) and not isinstance(b, bool) and (type(a) is int) != (type(b) is int):
+        return False
     try:
         x, y = onp.asarray(a), onp.asarray(b)
     except Exception:
@@ -253,6 +257,17 @@ def wrapper_forms(rng):
                              ("take", [[0, 1]], {}), ("ptp", [], {}), ("compress", [[True, False]], {"axis": 0}), ("cumprod", [], {}), ("all", [], {}), ("any", [], {}), ("argmax", [], {}),
                              ("argmin", [0], {}), ("argsort", [], {}), ("nonzero", [], {}), ("round", [], {}), ("round", [1], {}), ("searchsorted", [0.1], {}), ("argpartition", [1], {})):
         forms.append({"name": "method:" + meth, "args": [f(2, 3)] + (args if args is not None else []), "kw": kw, "tr": 0, "prop": args is None})
+    # shape queries of single-precision / 0-d / size-1 data (their answers are Python ints / tuples of ints)
+    for data in (f(2, 3).astype(onp.float32), f(4).astype(onp.float16), f(), f(1), f(0, 3)):
+        for meth in ("shape", "ndim", "size", "dtype", "T", "real", "imag", "itemsize", "nbytes"):
+            forms.append({"name": "method:" + meth, "args": [data], "kw": {}, "tr": 0, "prop": True})
+        if data.ndim:
+            forms.append({"name": "method:__len__", "args": [data], "kw": {}, "tr": 0})
+        for qn in ("size", "ndim", "shape"):
+            forms.append({"name": qn, "args": [data], "kw": {}, "tr": 0})
+    for k_ in range(4):
+        forms.append({"name": "quotient_by_size:%d" % k_, "args": [f(2, 3).astype(onp.float32)], "kw": {}, "tr": 0})
+        forms.append({"name": "quotient_by_size:%d" % k_, "args": [f(5).astype(onp.float16)], "kw": {}, "tr": 0})
     return forms
 
 
@@ -271,6 +286,9 @@ def _call_form(form, xp, sub=None):
         return getattr(obj, m)(*args[1:], **kw)
     if name in ("r_", "c_"):
         return getattr(xp, name)[tuple(args)]
+    if name.startswith("quotient_by_size:"):
+        x_ = args[0]
+        return [lambda: xp.sum(x_ * x_) / x_.size, lambda: x_ * x_.ndim, lambda: x_ / len(x_), lambda: xp.mean(x_) * x_.shape[0]][int(name[-1])]()
     return getattr(xp, name)(*args, **kw)
 
 
@@ -746,6 +764,20 @@ def c14_independent(res, rng):
                 if d:
                     _viol(res, sig, d, case, "result %s expected zero like %s" % (describe(r), sdesc(like)))
                     continue
+                # the same call in a process that promotes NumPy's / Python's own warning categories to errors
+                # (RuntimeWarning, DeprecationWarning, FutureWarning, ...) but leaves plain user-level notices
+                # alone: autograd's "independent of input" notice is such a notice, not a numerical failure
+                try:
+                    with warnings.catch_warnings():
+                        warnings.simplefilter("error")
+                        warnings.filterwarnings("ignore", category=UserWarning)
+                        thunk()
+                except Warning as w_:
+                    if "independent" in str(w_):
+                        _viol(res, sig, "independence_notice_raises", case, "with every warning category except UserWarning promoted to an error the operator raised %s: %s" % (type(w_).__name__, w_))
+                        continue
+                except Exception:
+                    pass
                 _ok(res, sig)
                 if res["evaluations"] % 90 == 1:
                     res["samples"].append({"arg": aname, "output": oname, "operator": opname, "result": describe(r)[:120]})
